@@ -14,6 +14,10 @@ c18.py (facet `flag_coverage`) runs every (entry, parameter set, output on/off) 
 that every flag of every directly exercised callable took all its values, unless the (callable, flag, value) is listed
 in FLAG_EXEMPT with a reason.  A flag that no entry varies is a HARNESS error (the catalogue is incomplete), not a
 violation of the library.
+
+`default_objects()` / `check_defaults()` (round 3): the MUTABLE default values in the signatures of the inventoried
+callables (numpy arrays, dicts, lists) are arguments too -- of every call that omits the keyword -- and are watched like the
+arrays the harness passes explicitly.
 """
 from __future__ import annotations
 
@@ -171,6 +175,58 @@ class CallTracer:
     def __exit__(self, *a):
         sys.setprofile(self._prev)
         return False
+
+
+# ============================================================================= mutable default arguments
+
+_DEFAULTS = None
+
+
+def _freeze_default(v):
+    import numpy as np
+    if isinstance(v, np.ndarray):
+        return ("ndarray", v.dtype.str, tuple(v.shape), v.tobytes())
+    if isinstance(v, dict):
+        return ("dict", repr(list(v.items())))
+    return (type(v).__name__, repr(v))
+
+
+def default_objects():
+    """[(qualified name, parameter, the default object, frozen state)] for every MUTABLE default value (numpy array, dict,
+    list, set, bytearray) in the signature of an inventoried public callable -- `ppp=np.array([1, 1, 1])`,
+    `diameters={1: 1.0, 2: 1.0}`, `radii={1: 0.5, 2: 0.5}`.  Such an object is created once at import and is the ARGUMENT of
+    every call that omits the keyword: writing to it changes what every later call with the default computes.  Frozen at
+    the first use in a process, i.e. before the first catalogue call."""
+    global _DEFAULTS
+    if _DEFAULTS is None:
+        import numpy as np
+        inv, _ = inventory()
+        out, seen = [], set()
+        for q, rec in sorted(inv.items()):
+            try:
+                sig = inspect.signature(rec["obj"])
+            except (TypeError, ValueError):
+                continue
+            for name, prm in sig.parameters.items():
+                v = prm.default
+                if isinstance(v, (np.ndarray, dict, list, set, bytearray)) and (q, name) not in seen:
+                    seen.add((q, name))
+                    out.append((q, name, v, _freeze_default(v)))
+        _DEFAULTS = out
+    return _DEFAULTS
+
+
+def check_defaults(after):
+    """Invariant (1) for the arguments a caller passes by OMITTING them."""
+    from ..harness import Violation
+    for q, name, v, frozen in default_objects():
+        now = _freeze_default(v)
+        if now != frozen:
+            raise Violation(f"after {after}: the mutable default value of parameter {name!r} of {q.replace('PyMatterSim.', '')} -- the "
+                            f"argument of every call that omits it -- was modified in place: {frozen[-1]!r:.80} -> {now[-1]!r:.80}"
+                            if frozen[0] != "ndarray" else
+                            f"after {after}: the default array of parameter {name!r} of {q.replace('PyMatterSim.', '')} -- the argument "
+                            f"of every call that omits it -- was modified in place (now {v!r:.80})")
 
 
 def flag_report(inv, tracer):
